@@ -29,6 +29,7 @@ class Exec:
         self.sim = sim
         self.salt = {}  # (tag, svn, vn, target) -> int
         self.log = []  # (tag, target, runid)
+        self.checkpoints = 0
         engine_rt.BEHAVIOUR = self.behaviour
 
     def close(self):
@@ -78,10 +79,15 @@ class Exec:
                             inputs.append([f'{tn}:{fsvn}.{vn}', _digest(_norm(getattr(aspects[tn][fsvn][vn], 'content', None)))])
         else:
             raise NotImplementedError('regressions are history dependent: not part of the end-to-end engines')
-        for sv in alg.state_vectors():
-            for vn in sv.keys():
-                s = self.salt.get((tag, sv.name(), vn, target), 0)
-                sv[vn].content = content(tag, sv.name(), vn, target, inputs, s)
+        names = [(sv, vn) for sv in alg.state_vectors() for vn in sv.keys()]
+        # some algorithms checkpoint: they write what they have half way and write everything again at the end
+        checkpoint = len(names) > 1 and (h64([tag, target, len(self.log)])[0] in '0123')
+        for i, (sv, vn) in enumerate(names):
+            s = self.salt.get((tag, sv.name(), vn, target), 0)
+            sv[vn].content = content(tag, sv.name(), vn, target, inputs, s)
+            if checkpoint and i == 0:
+                self.checkpoints += 1
+                ds.update()
         self.log.append((tag, target, ds._runid()))  # pylint: disable=protected-access
         ds.update()
 
